@@ -37,6 +37,9 @@ __CPROVER_ensures(__CPROVER_return_value ==> (TC_row(ctx) == __CPROVER_old(TC_ro
 __CPROVER_ensures(__CPROVER_return_value ==> (TC_last(ctx) == (size_t)TC_at(ctx, TC_idx(ctx) - 1) && TC_NOT_MID_CRLF(ctx)))
 /* false exactly when the next non-blank is not a terminator */
 __CPROVER_ensures((!__CPROVER_return_value && g_J >= OLD_IDX && g_J < TC_size(ctx) && IS_EOL(TC_at(ctx, g_J))) ==> g_J > OLD_IDX)
+/* C08 "the most frequent terminator of the input (counted outside disabled regions)": this is the newline eater of disabled regions and of
+ * ignored macro bodies (parse_off_newlines); the terminators it consumes do not vote in the census for newlines=auto */
+__CPROVER_ensures(CPD(le_counts)[0] == __CPROVER_old(CPD(le_counts)[0]) && CPD(le_counts)[1] == __CPROVER_old(CPD(le_counts)[1]) && CPD(le_counts)[2] == __CPROVER_old(CPD(le_counts)[2]))
 ;
 
 /* ---- parse_bs_newline: backslash, optional white space, one terminator -> CT_NL_CONT with nl_count 1 ---- */
@@ -104,6 +107,8 @@ __CPROVER_ensures(__CPROVER_return_value ==> (Chunk_m_type(pc) == CT_NEWLINE_V &
 __CPROVER_ensures(!__CPROVER_return_value ==> (TC_row(ctx) == __CPROVER_old(TC_row(ctx)) && TC_col(ctx) == __CPROVER_old(TC_col(ctx))
                                                && TC_last(ctx) == __CPROVER_old(TC_last(ctx)) && Chunk_m_nlCount(pc) == __CPROVER_old(Chunk_m_nlCount(pc))))
 __CPROVER_ensures(TC_NOT_MID_CRLF(ctx))
+/* C08: line breaks of a disabled region do not vote in the terminator census */
+__CPROVER_ensures(CPD(le_counts)[0] == __CPROVER_old(CPD(le_counts)[0]) && CPD(le_counts)[1] == __CPROVER_old(CPD(le_counts)[1]) && CPD(le_counts)[2] == __CPROVER_old(CPD(le_counts)[2]))
 ;
 
 /* ---- tokenize() tail: the terminator written for this file (C08-K3) ---- */
